@@ -1263,12 +1263,28 @@ pub fn generate(seed: u64) -> C11Scenario {
     }
     if !minify && rc.chance(1, 5) {
         // top-level filters: files they exclude are skipped entirely (no output)
+        // patterns from the pool, or anchored at the input directory (which may be a
+        // hidden directory: a pattern starting with a dot)
+        let input_dir = if project.input_is_file {
+            gen::parent(&project.input).to_owned()
+        } else {
+            project.input.clone()
+        };
+        let pattern = |rc: &mut Rng| -> String {
+            if !input_dir.is_empty() && rc.chance(1, 3) {
+                format!("{}/{}", input_dir, *rc.pick(&["**", "*", "**/*.lua", "sub/**", "*/*"]))
+            } else {
+                (*rc.pick(gen::FILTER_PATTERNS)).to_owned()
+            }
+        };
         let n = rc.range(0, 2);
         for _ in 0..n {
-            parts.apply_to_files.push((*rc.pick(gen::FILTER_PATTERNS)).to_owned());
+            let p = pattern(&mut rc);
+            parts.apply_to_files.push(p);
         }
         if n == 0 || rc.chance(1, 3) {
-            parts.skip_files.push((*rc.pick(gen::FILTER_PATTERNS)).to_owned());
+            let p = pattern(&mut rc);
+            parts.skip_files.push(p);
         }
     }
     let config_text = parts.to_text();
